@@ -7,7 +7,7 @@ STANDING_ASSUMPTIONS = [
     'error values are unspecified: contracts only distinguish Ok from Err',
     'stack depth is not modelled (recursive burn_value family)',
     'AsRef::as_ref on the generic part lists of Tags::from_parts is a function of its receiver, and the parts fit in the address space (prelude/asref.rs)',
-    'extraction rewrites R1..R31 (DESIGN.md 2.3 and 8.2) preserve semantics; each application is listed under coverage.rewrites',
+    'extraction rewrites R1..R35 (DESIGN.md 2.3 and 8.2) preserve semantics; each application is listed under coverage.rewrites',
 ]
 
 PROPERTIES = {
